@@ -15,7 +15,15 @@ size_t force2(E64 e, ::std::string& s, ::google::protobuf::io::CodedOutputStream
   ::babylon::SerializeTraits<int8_t>::serialize(b, os); ::babylon::SerializeTraits<int8_t>::deserialize(is, b);
   ::babylon::SerializeTraits<bool>::serialize(c, os); ::babylon::SerializeTraits<bool>::deserialize(is, c);
   ::babylon::SerializeTraits<int64_t>::serialize(d, os); ::babylon::SerializeTraits<int64_t>::deserialize(is, d);
-  return ET::calculate_serialized_size(e) + ST::calculate_serialized_size(s) + ::babylon::SerializeTraits<int32_t>::calculate_serialized_size(a)
+  int16_t f = 0; uint8_t g = 0; uint16_t h = 0; uint32_t i = 0; uint64_t j = 0;
+  ::babylon::SerializeTraits<int16_t>::serialize(f, os); ::babylon::SerializeTraits<int16_t>::deserialize(is, f);
+  ::babylon::SerializeTraits<uint8_t>::serialize(g, os); ::babylon::SerializeTraits<uint8_t>::deserialize(is, g);
+  ::babylon::SerializeTraits<uint16_t>::serialize(h, os); ::babylon::SerializeTraits<uint16_t>::deserialize(is, h);
+  ::babylon::SerializeTraits<uint32_t>::serialize(i, os); ::babylon::SerializeTraits<uint32_t>::deserialize(is, i);
+  ::babylon::SerializeTraits<uint64_t>::serialize(j, os); ::babylon::SerializeTraits<uint64_t>::deserialize(is, j);
+  size_t more = ::babylon::SerializeTraits<int16_t>::calculate_serialized_size(f) + ::babylon::SerializeTraits<uint8_t>::calculate_serialized_size(g) + ::babylon::SerializeTraits<uint16_t>::calculate_serialized_size(h)
+       + ::babylon::SerializeTraits<uint32_t>::calculate_serialized_size(i) + ::babylon::SerializeTraits<uint64_t>::calculate_serialized_size(j);
+  return more + ET::calculate_serialized_size(e) + ST::calculate_serialized_size(s) + ::babylon::SerializeTraits<int32_t>::calculate_serialized_size(a)
        + ::babylon::SerializeTraits<int8_t>::calculate_serialized_size(b) + ::babylon::SerializeTraits<bool>::calculate_serialized_size(c) + ::babylon::SerializeTraits<int64_t>::calculate_serialized_size(d);
 }
 }
